@@ -184,7 +184,7 @@ def souden_wmwf(d, ctx):
                  distortion_weight=0.0)
     require_close(w0, ws, 'wmwf-mu0-equals-souden', rtol=tol)
     # scale invariances
-    c1, c2 = 10 ** rng.uniform(-3, 3, size=2)
+    c1, c2 = 10 ** rng.uniform(-12, 12, size=2) if d.bool() else 10 ** rng.uniform(-3, 3, size=2)
     require_close(ctx.lib(bf.get_mvdr_vector_souden, c1 * phi_xx, c2 * phi_nn,
                           ref_channel=ref), ws, 'souden-scale-invariance', rtol=tol)
     require_close(ctx.lib(bf.get_wmwf_vector, c1 * phi_xx, c1 * phi_nn,
